@@ -234,3 +234,15 @@ package main
 // digits) with the requested prefix, with the size and mtime of that entry.
 //@ func UnixVolume.IndexTo property C02,C06 safety -bounds
 //@   calls fmt.Fprint#1: requires matches(name, `^[0-9a-f]{32}$`) && strings.HasPrefix(name, prefix)
+
+// putWithPipe: when the wait ends because the context is done, the writer side
+// of the pipe is closed with the context's error (so that WriteBlock's reader
+// sees an error, never a clean EOF, and cannot rename a truncated temp file
+// into place); ctx.Err() is consulted at that point only on that branch.
+//@ func putWithPipe property C02
+//@   ghost sel int = 0 - 1
+//@   ghost cerr error = nil
+//@   at select#1: set sel = $index
+//@   calls Context.Err#1: requires sel == 2
+//@   calls Context.Err#1: set cerr = $r
+//@   calls PipeWriter.CloseWithError#1: requires sel == 2 ==> $0 == cerr
